@@ -96,6 +96,11 @@ int main(int argc, char** argv) {
 		w.sc.p = P(); w.sc.init(w.key.data(), w.key.size());
 		auto ib = vf::unhex(r.at("input").s); vf::Result R;
 		if (d.empty()) d = check_case(w, std::string((const char*)ib.data(), ib.size()), r.at("v2").b, R, true);
+		if (d.empty() && r.has("ordinal") && small) {   // not visible on fresh VMs: re-run this key's cases in the original order (history-dependent defect)
+			int shard = (int)r.at("shard").num(), want = (int)r.at("ordinal").num(), n = 0;
+			for (size_t len : lens) for (int v2 = 0; v2 < 2 && n <= want; ++v2) { d = check_case(w, alph::input(len, (int)((len + shard) % 3)), v2, R, true); if (n < want) d.clear(); ++n; }
+			if (!d.empty()) d += " [only after the preceding hashes on the same VMs: history-dependent]";
+		}
 		printf("replay: %s\n", d.empty() ? "all configurations agree" : d.c_str());
 		return d.empty() ? 0 : 1;
 	}
@@ -108,14 +113,14 @@ int main(int argc, char** argv) {
 			std::string d = w.build(all6, ds_ids, 1); if (d.empty()) d = w.make_vms(all6, ds_ids);
 			w.sc.p = P(); w.sc.init(w.key.data(), w.key.size());
 			if (!d.empty()) { vf::Violation v; v.key = "c01:setup"; v.what = d; v.replay = case_json(w.key, "", false); R.viol.push_back(v); return R; }
-			R.n["keys"]++;
+			R.n["keys"]++; int ordinal = 0;
 			for (size_t len : lens) for (int v2 = 0; v2 < 2; ++v2) {
 				if (args.expired()) { R.incomplete = true; return R; }
 				std::string in = alph::input(len, (int)((len + shard) % 3));
 				vf::set_current(case_json(w.key, in, v2).dump());
-				d = check_case(w, in, v2, R, true);
+				d = check_case(w, in, v2, R, true); ++ordinal;
 				if (shard == 1 && len == 33) R.sample(case_json(w.key, in, v2), 2);
-				if (!d.empty()) { vf::Violation v; v.key = "c01:disagree"; v.what = "key(len " + std::to_string(w.key.size()) + ") input(len " + std::to_string(len) + ") " + (v2 ? "v2: " : "v1: ") + d; v.replay = case_json(w.key, in, v2); R.viol.push_back(v); if (R.viol.size() >= 3) return R; }
+				if (!d.empty()) { vf::Violation v; v.key = "c01:disagree"; v.what = "key(len " + std::to_string(w.key.size()) + ") input(len " + std::to_string(len) + ") " + (v2 ? "v2: " : "v1: ") + d; v.replay = case_json(w.key, in, v2).set("shard", shard).set("ordinal", ordinal - 1); R.viol.push_back(v); if (R.viol.size() >= 3) return R; }
 			}
 			return R;
 		}, true, 3600);
